@@ -103,6 +103,10 @@ pub fn run<W: Write>(opts: &Opts, out: &mut W) {
         if opts.mine(k as u64) {
             let data = crate::synth::backref_heavy(&mut rng.fork(0xbac0 + k as u64), k * 3 + k / 4);
             situ_case(out, &format!("situ-backref-heavy-{k}"), "vp8l", &data, 2048, 2048);
+            // the costliest back-reference the format allows (deep length symbol + 10 + deep distance symbol + 18 bits)
+            let (gd, dd) = [(15u8, 15u8), (15, 1), (9, 15), (12, 7)][k as usize % 4];
+            let data = crate::synth::backref_max(&mut rng.fork(0xbac1 + k as u64), k * 7 + k / 2, gd, dd);
+            situ_case(out, &format!("situ-backref-max-{k}"), "vp8l", &data, 4096, 4096);
             // the longest literal pixel (1 + 3 x 15 bits)
             let data = crate::synth::long_literals(&mut rng.fork(0x1176 + k as u64), k * 5 + k / 3);
             situ_case(out, &format!("situ-long-literals-{k}"), "vp8l", &data, 256, 256);
